@@ -95,6 +95,9 @@ def run(ctx):
                 n = rng.choice([1, 3, 8, 9, 16])
                 vl.append('variance %d %d %d %d' % (kind, opc, n, p))
                 vexp.append({0: 5, 1: 5, 2: 4 + p * p, 3: 4 + p * p, 4: 4, 5: 0, 6: 0, 7: 4, 20: 0, 21: 4, 22: 0}[opc])
+    # tLweAddMulRTo (polynomial multiplier, N = 1024): var1 + ||p||^2 * var2; p has the value q at every third coefficient (342 of them)
+    for q in (0, 1, -1, 3, -5, 11):
+        vl.append('variance 1 30 1024 %d' % q); vexp.append(4 + 342 * q * q)
     for l, o, e in zip(vl, vlib.run_lines(exes['optim'], vl), vexp):
         ctx.count(l)
         if o.strip() != str(e): ctx.report('variance-annotation', '%s: the variance annotation of the result is %s/16, the rule var1 + p^2*var2 (inputs 1/4 and 1/16) gives %d/16' % (l, o.strip(), e), {'case': l, 'impl': o, 'expected': e})
